@@ -43,6 +43,35 @@ def run(ctx):
     ml = prog.fn("ovni_mark_label", OV)
     pm = prog.fn("parse_mark", MK)
     st = prog.fn("scan_thread", MK)
+    GETTER_FAMILY = ("json_object_dotget_value", "json_object_dotget_string", "json_object_dotget_object",
+                     "json_object_dothas_value", "json_object_get_value", "json_object_get_string")
+
+    def meta_getters(defined, keyof=None, gets=None):
+        """Summaries for the parson getters the runtime may use to ask whether a key is already present:
+        the k-th query answers defined[k] (present: a value / the string 'OLD' / 1; absent: NULL / 0)."""
+        cnt = [0]
+
+        def mk(name):
+            def s_(ex_, st_, a, f, e):
+                if gets is not None and keyof is not None:
+                    gets.append(keyof(st_, a[1]))
+                d = defined[min(cnt[0], len(defined) - 1)]
+                cnt[0] += 1
+                if name.endswith("_string"):
+                    return [((("str", "OLD") if d else NULL), {})]
+                if "has_value" in name:
+                    return [(INT(1 if d else 0), {})]
+                return [((PTR("V") if d else NULL), {})]
+            return s_
+        out = {n: mk(n) for n in GETTER_FAMILY}
+
+        def s_strcmp(ex_, st_, a, f, e):
+            if a[0][0] == "str" and a[1][0] == "str":
+                return [(INT(0 if a[0][1] == a[1][1] else 1), {})]
+            return None
+        out["strcmp"] = s_strcmp
+        return out
+
     def rt_keys(fn, args, defined):
         """Keys (and string values) the runtime function passes to the JSON setters / getters,
         with snprintf evaluated on its constant format and arguments."""
@@ -72,20 +101,15 @@ def run(ctx):
             d = a[0]
             path = d[2][:-1] if d[2] and d[2][-1] == 0 else d[2]
             return [(INT(len(out)), {(d[1], path): ("str", out)})]
-        cnt = [0]
-
-        def s_get(ex_, st_, a, f, e):
-            gets.append(strval(st_, a[1]))
-            cnt[0] += 1
-            return [((PTR("V") if defined[min(cnt[0] - 1, len(defined) - 1)] else NULL), {})]
 
         def s_set(ex_, st_, a, f, e):
             sets.append((strval(st_, a[1]), strval(st_, a[2])))
             return [(INT(0), {})]
-        ex = absint.Explorer(prog, effects=eff, summaries={
-            "get_thread_metadata": lambda ex_, st_, a, f, e: [(PTR("META"), {})],
-            "json_object_dotget_value": s_get, "json_object_dotset_string": s_set,
-            "snprintf": s_snprintf, "__builtin___snprintf_chk": s_snprintf})
+        sums = meta_getters(defined, keyof=strval, gets=gets)
+        sums.update({"get_thread_metadata": lambda ex_, st_, a, f, e: [(PTR("META"), {})],
+                     "json_object_dotset_string": s_set,
+                     "snprintf": s_snprintf, "__builtin___snprintf_chk": s_snprintf})
+        ex = absint.Explorer(prog, effects=eff, summaries=sums)
         ex.run(fn, args, {})
         return sets, gets
     sets_t0, gets_t = rt_keys(mt, [INT(5), INT(0), ("str", "T")], [False])
@@ -248,12 +272,12 @@ def run(ctx):
               me.loc(), "the emulator accepts a mark of a type no thread defined")
 
     def rt_dies(fn, args, defined):
-        ex = absint.Explorer(prog, effects=eff, summaries={
-            "get_thread_metadata": lambda ex_, st_, a, f, e: [(PTR("META"), {})],
-            "json_object_dotget_value": lambda ex_, st_, a, f, e, d=defined, cnt=[0]:
-                (cnt.__setitem__(0, cnt[0] + 1), [((PTR("V") if d[min(cnt[0] - 1, len(d) - 1)] else NULL), {})])[1],
-            "json_object_dotset_string": lambda ex_, st_, a, f, e: [(INT(0), {})],
-            "snprintf": lambda ex_, st_, a, f, e: [(INT(10), {})], "__builtin___snprintf_chk": lambda ex_, st_, a, f, e: [(INT(10), {})]})
+        sums = meta_getters(defined)
+        sums.update({"get_thread_metadata": lambda ex_, st_, a, f, e: [(PTR("META"), {})],
+                     "json_object_dotset_string": lambda ex_, st_, a, f, e: [(INT(0), {})],
+                     "snprintf": lambda ex_, st_, a, f, e: [(INT(10), {})],
+                     "__builtin___snprintf_chk": lambda ex_, st_, a, f, e: [(INT(10), {})]})
+        ex = absint.Explorer(prog, effects=eff, summaries=sums)
         outs = ex.run(fn, args, {})
         return bool(outs) and all(o.kind == "die" for o in outs), bool([o for o in outs if o.kind in ("ret", "exit")])
     for t in (-1, 0, 99, 100, 250):
@@ -281,7 +305,9 @@ def run(ctx):
             ctx.check(lives, "R17.3", inst, ml.loc(), "the runtime refuses a %s" % what)
 
     # emulator conflicts
-    def run_parse(typestr_val, title, chan, existing):
+    def run_parse(typestr_val, title, chan, existing, labels=None):
+        """labels: None = the mark has no label table; 0 / -1 = it has one and parse_labels returns that."""
+        parsed = []
         def s_getstr(ex_, st_, args, f, e):
             k = args[1][1] if args[1][0] == "str" else ""
             return [(("str", chan if k == "chan_type" else title), {})]
@@ -307,7 +333,9 @@ def run(ctx):
             "json_object_get_string": s_getstr, "strcmp": s_strcmp,
             "find_mark_type": lambda ex_, st_, a, f, e: [((PTR("MT") if existing else NULL), {})],
             "create_mark_type": lambda ex_, st_, a, f, e, c=created: (c.append(tuple(a)), [(PTR("NEWMT"), {})])[1],
-            "json_object_has_value": lambda ex_, st_, a, f, e: [(INT(0), {})],
+            "json_object_has_value": lambda ex_, st_, a, f, e: [(INT(0 if labels is None else 1), {})],
+            "json_object_get_object": lambda ex_, st_, a, f, e: [(PTR("LABELS"), {})],
+            "parse_labels": lambda ex_, st_, a, f, e: (parsed.append(tuple(a)), [(INT(labels or 0), {})])[1],
             "__errno_location": lambda ex_, st_, a, f, e: [(PTR("ERRNO"), {})]})
         store = {("ERRNO", ()): INT(0), ("STREND", (0,)): INT(0), ("STREND", ()): INT(0)}
         if existing:
@@ -315,7 +343,25 @@ def run(ctx):
         outs = ex.run(pm, [PTR("MEMU"), ("str", "5"), PTR("MV")], store)
         acc = [o for o in outs if o.kind == "ret" and o.ret == INT(0)]
         rej = [o for o in outs if o.kind == "ret" and o.ret != INT(0)]
+        if labels is not None:
+            return acc, rej, parsed
         return acc, rej, created
+    # label tables are merged for every thread that defines the type, not only for the first one
+    for (existing, lret, what) in ((None, 0, "new type with labels"), (("A", "single"), 0, "existing type, more labels"),
+                                   (("A", "single"), -1, "existing type, conflicting label"),
+                                   (None, -1, "new type, bad label")):
+        acc, rej, parsed = run_parse(5, "A", "single", existing, labels=lret)
+        inst = "parse_mark:labels:%s" % what.replace(" ", "-").replace(",", "")
+        tobj = PTR("MT") if existing else PTR("NEWMT")
+        if lret == 0:
+            ctx.check(bool(acc) and (tobj, PTR("LABELS")) in parsed, "R17.3", inst, pm.loc(),
+                      "the labels a thread gives for a%s mark type are not merged into it (parse_labels calls: %s): "
+                      "labels are lost and conflicts between threads go unnoticed" %
+                      ("n already defined" if existing else " new", parsed))
+        else:
+            ctx.check(not acc and bool(rej), "R17.3", inst, pm.loc(),
+                      "a label conflict found while merging the labels of a%s mark type is not refused" %
+                      ("n already defined" if existing else " new"))
     for (tv, title, chan, existing, want, what) in (
             (5, "A", "single", None, True, "new type"),
             (5, "A", "single", ("A", "single"), True, "same definition from another thread"),
